@@ -60,7 +60,7 @@ CHECKS = {
         "groups": [
             {"pkg": "Havoc/pkg/handlers", "with": ["Havoc/pkg/agent"] + AGENT_WITH, "entries": ["H_c12_admission"], "flags": ["-tags", "c12"], "shards": 4},
         ],
-        "bounds": "URIs: none / [\"\"] / one / two / [\"\", one] configured, request URI '/'+1 arbitrary byte; User-Agent set/unset ('UA'+1 byte) and present/absent in the request; request headers: none, one required header with a 2-byte arbitrary value (may contain ':' and blanks), with ignored headers in either case; response headers: none / one / two with a 3-byte arbitrary value (may contain ':'); redirector flag; IPv4 and IPv6 peers.",
+        "bounds": "URIs: none / [\"\"] / one / two / [\"\", one] configured, request URI '/'+1 arbitrary byte (thorough 2); User-Agent set/unset ('UA'+1 byte, thorough 2) and present/absent in the request; request headers: none, one required header with a 2-byte arbitrary value (may contain ':' and blanks), with ignored headers in either case; response headers: none / one / two with a 3-byte arbitrary value (may contain ':'); redirector flag; IPv4 and IPv6 peers.",
         "outside": "gin routing and method dispatch (POST/GET registration), net/http, TLS, the bytes of 404.html; header names are concrete",
         "min_completed": 3,
     },
@@ -120,9 +120,10 @@ CHECKS = {
     },
     "C19": {
         "groups": [
-            {"pkg": "Havoc/pkg/profile/yaotl/ext/dynblock", "with": ["Havoc/pkg/profile/yaotl/hclsyntax"], "entries": ["H_c19_equiv", "H_c19_nested_dynamic"], "flags": ["-tags", "nohint", "-init", "Havoc/pkg/profile/yaotl,golang.org/x/text/unicode/norm,github.com/zclconf/go-cty/...,math/big,github.com/agext/levenshtein"]},
+            {"pkg": "Havoc/pkg/profile/yaotl/ext/dynblock", "with": ["Havoc/pkg/profile/yaotl/hclsyntax"], "entries": ["H_c19_equiv"], "shards": 8, "flags": ["-tags", "nohint", "-init", "Havoc/pkg/profile/yaotl,golang.org/x/text/unicode/norm,github.com/zclconf/go-cty/...,math/big,github.com/agext/levenshtein"]},
+            {"pkg": "Havoc/pkg/profile/yaotl/ext/dynblock", "with": ["Havoc/pkg/profile/yaotl/hclsyntax"], "entries": ["H_c19_nested_dynamic"], "flags": ["-tags", "nohint", "-init", "Havoc/pkg/profile/yaotl,golang.org/x/text/unicode/norm,github.com/zclconf/go-cty/...,math/big,github.com/agext/levenshtein"]},
         ],
-        "bounds": "one configuration schema (required string attribute a, optional number n = 2^64+1, repeated block b with string attribute c) with three arbitrary printable characters as the string values, with and without the required attribute, written five ways: plain native syntax; reordered with the three comment styles, odd spacing and a single-line block; JSON syntax; split over two files merged with MergeBodies; repeated blocks replaced by a dynamic block over the same values (dynblock.Expand). All five decode through hcldec.Decode to the same cty value (and that value is the intended one), and all five are valid exactly when the configuration is. Nested repeated blocks against a dynamic block inside a dynamic block, with the same and with different iterator names, arbitrary strings.",
+        "bounds": "one configuration schema (required string attribute a, optional number n = 2^64+1, repeated block b with string attribute c) with three arbitrary printable strings of one character (thorough: two characters) as the string values, with and without the required attribute, written five ways: plain native syntax; reordered with the three comment styles, odd spacing and a single-line block; JSON syntax; split over two files merged with MergeBodies; repeated blocks replaced by a dynamic block over the same values (dynblock.Expand). All five decode through hcldec.Decode to the same cty value (and that value is the intended one), and all five are valid exactly when the configuration is. Nested repeated blocks against a dynamic block inside a dynamic block, with the same and with different iterator names, arbitrary strings.",
         "outside": "the gohcl decoder (reflection); other schemas (labelled blocks, maps, sets, nested dynamic blocks, collection-typed attributes); compositions of rewrites; strings needing escapes (the two syntaxes escape differently; encoding/json.Unmarshal is a model for escape-free string tokens); hclwrite formatting as a rewrite (covered for validity under C20)",
         "min_completed": 1,
     },
@@ -198,7 +199,7 @@ CHECKS = {
             {"pkg": "Havoc/pkg/agent", "with": AGENT_WITH, "entries": ["H_c03_register"], "shards": 3},
             {"pkg": "Havoc/pkg/agent", "with": AGENT_WITH, "entries": ["H_c03_identity"]},
         ],
-        "bounds": "ParseInt32/64/Bool/Pointer: buffer length 0..16, all byte values; ParseBytes: length 0..14; CanIRead: 0..3 fields of the 5 kinds over 0..16 bytes.",
+        "bounds": "ParseInt32/64/Bool/Pointer: buffer length 0..16 (thorough 0..24), all byte values; ParseBytes: length 0..14 (thorough 0..22); CanIRead: 0..3 fields of the 5 kinds over 0..16 (thorough 0..22) bytes.",
         "outside": "longer buffers; console text formatting",
         "min_completed": 5,
     },
